@@ -3,6 +3,8 @@
 import json, os
 ROOT = os.path.dirname(os.path.dirname(os.path.abspath(__file__)))
 
+SUFFIX = " The enumerated spaces were widened over nine rounds of seeded changes (DESIGN.md section 13); the bounds in force are the ones written into the evidence file by the run itself (its 'rule' and 'bounds' fields), which also list the fixed large-size cases (scale family, DESIGN.md section 11) that extend the bounds along the size axis only."
+
 CHECKS = {
  "C01": dict(engine="enum", technique="bounded-exhaustive enumeration of rendered instructions against the documented-syntax renderer (round-trip oracle)",
    text="Every instruction shape x rendering style x argument string up to the stated length over a 15-character alphabet holding one representative of every character class the scanner distinguishes is rendered with the documented syntax and parsed by the real parser; the result must be exactly the instruction. Exhaustive within the bounds, so any scanner-state interaction with a witness of <= 5 characters / 3 arguments is found; that is the right level because the scanner is a small finite transducer and its defects have tiny witnesses.",
@@ -84,7 +86,7 @@ def main():
                 "evidence_file": f"/verif/evidence/{pid}.json",
                 "replay_cmd_template": f"./check {pid} --replay {{path}}",
                 "engine": c["engine"],
-                "level_claimed": {"category": "model_checking", "text": c["text"], "design_ref": c["ref"]},
+                "level_claimed": {"category": "model_checking", "text": c["text"] + SUFFIX, "design_ref": c["ref"]},
                 "level_note": c["note"],
                 "technique": c["technique"],
             })
